@@ -291,3 +291,453 @@ Proof.
   intros Hc. change (2 ^ 32)%N with 4294967296%N in Hc.
   cbn [be app rev le32]. lia.
 Qed.
+(** *** one cell *)
+Lemma parse_cell_gen d1 d2 stored dat refbytes rest size (sp : bool) ty mask b k refs :
+  N.testbit d1 3 = sp ->
+  N.testbit d1 4 = negb (Nat.eqb (length stored) 0) ->
+  N.to_nat (d1 mod 8) = k ->
+  (d1 / 32)%N = mask ->
+  N.to_nat (d2 / 2 + d2 mod 2) = length dat ->
+  (stored = [] \/ length stored = ((popcount3 mask + 1) * 34)%nat) ->
+  top_upped_bits dat (N.eqb (d2 mod 2) 0) = Ok b ->
+  (if sp then (exists t, dat = ty :: t) /\ ty <> 0%N else ty = 0%N) ->
+  read_refs k size (refbytes ++ rest) [] = Ok (refs, rest) ->
+  length refbytes = (size * k)%nat ->
+  parse_cell (d1 :: d2 :: stored ++ dat ++ refbytes ++ rest) size
+  = Ok (mkrnode sp ty mask b refs, rest).
+Proof.
+  intros T3 T4 M8 D32 HD Hst Htop Hty Hrefs Hrl.
+  unfold parse_cell. cbv zeta.
+  rewrite T3, T4, M8, D32, HD.
+  match goal with |- bind ?A _ = _ =>
+    assert (E2 : A = Ok (dat ++ refbytes ++ rest)) end.
+  { destruct Hst as [->|Hl].
+    - reflexivity.
+    - replace (length stored =? 0)%nat with false by (symmetry; apply Nat.eqb_neq; lia).
+      cbn [negb]. rewrite <- Hl, short_app_exact, skipn_app_exact. reflexivity. }
+  rewrite E2. cbn [bind].
+  assert (Es : short (length dat + size * k) (dat ++ refbytes ++ rest) = false).
+  { apply short_false_iff. rewrite !app_length. lia. }
+  rewrite Es.
+  match goal with |- bind ?A _ = _ => assert (Et : A = Ok ty) end.
+  { destruct sp; [|rewrite Hty; reflexivity].
+    destruct Hty as ((t & ->) & _). reflexivity. }
+  rewrite Et. cbn [bind].
+  rewrite take_drop_ok by (rewrite app_length; lia). cbn [bind].
+  rewrite firstn_app_exact, skipn_app_exact, Htop. cbn [bind].
+  rewrite Hrefs. cbn [bind].
+  replace (sp && negb (ty =? 0)%N) with sp; [reflexivity|].
+  destruct sp; [|reflexivity]. destruct Hty as (_ & Hnz).
+  apply N.eqb_neq in Hnz. rewrite Hnz. reflexivity.
+Qed.
+
+Definition rnode_of (c : node) : rnode :=
+  mkrnode (n_special c) (n_type c) (n_mask c) (n_bits c) (map N.of_nat (n_refs c)).
+
+Lemma node_of_rnode_of c : node_of (rnode_of c) = c.
+Proof.
+  destruct c as [sp ty m b rs]. unfold node_of, rnode_of.
+  cbn [rn_special rn_type rn_mask rn_bits rn_refs n_special n_type n_mask n_bits n_refs].
+  rewrite map_to_of_nat. reflexivity.
+Qed.
+
+Lemma parse_cell_enc n i size c stored rest :
+  cell_ok n i size c stored ->
+  (N.of_nat n <= 256 ^ N.of_nat size)%N -> (N.of_nat n <= two64)%N ->
+  parse_cell (enc_cell size c stored ++ rest) size = Ok (rnode_of c, rest).
+Proof.
+  intros (Hbits & Hnr & Hrefs & Hmask & Hsp & Hst & _) Hn1 Hn2.
+  unfold enc_cell. cbv zeta.
+  rewrite <- !app_comm_cons, <- !app_assoc.
+  destruct (d1_facts (N.of_nat (length (n_refs c))) (n_special c)
+                     (Nat.eqb (length stored) 0) (n_mask c) ltac:(lia) Hmask)
+    as (T3 & T4 & M8 & D32 & _).
+  destruct (d2_facts (length (n_bits c)) Hbits) as (HD & HF & _).
+  fold (be_list size (n_refs c)).
+  unfold rnode_of.
+  apply parse_cell_gen with (k := length (n_refs c)).
+  - exact T3.
+  - exact T4.
+  - rewrite M8. apply Nat2N.id.
+  - exact D32.
+  - unfold d2_of. rewrite HD. symmetry. apply enc_data_length.
+  - exact Hst.
+  - unfold d2_of. rewrite HF. apply top_upped_enc.
+  - destruct (n_special c).
+    + destruct Hsp as (H8 & Hty & Hnz). split; [|exact Hnz].
+      rewrite Hty. apply enc_data_first. exact H8.
+    + exact Hsp.
+  - rewrite read_refs_be; [reflexivity|].
+    eapply Forall_impl; [|exact Hrefs]. intros r Hr. cbv beta in Hr. unfold fits.
+    split; [apply N.lt_le_trans with (N.of_nat n); [lia|exact Hn1]
+           |apply N.lt_le_trans with (N.of_nat n); [lia|exact Hn2]].
+  - apply be_list_length.
+Qed.
+
+Definition cells_bytes (size : nat) (cells : list node) (stored : list bytes) : bytes :=
+  concat (map (fun p => enc_cell size (fst p) (snd p)) (combine cells stored)).
+
+Lemma parse_cells_enc n size : forall cells stored i acc,
+  cells_ok n i size cells stored ->
+  (N.of_nat n <= 256 ^ N.of_nat size)%N -> (N.of_nat n <= two64)%N ->
+  parse_cells (length cells) size (cells_bytes size cells stored) acc
+  = Ok (rev acc ++ map rnode_of cells).
+Proof.
+  induction cells as [|c t IH]; intros stored i acc Hok Hn1 Hn2.
+  - cbn [length parse_cells map]. rewrite app_nil_r. reflexivity.
+  - destruct stored as [|s ts]; [contradiction|]. destruct Hok as (Hc & Ht).
+    unfold cells_bytes. cbn [combine map concat fst snd length parse_cells].
+    fold (cells_bytes size t ts).
+    rewrite (parse_cell_enc _ _ _ _ _ _ Hc Hn1 Hn2). cbn [bind].
+    rewrite (IH _ _ _ Ht Hn1 Hn2). cbn [rev]. rewrite <- app_assoc. reflexivity.
+Qed.
+
+Lemma cells_bytes_length n size : forall cells stored i,
+  cells_ok n i size cells stored ->
+  (2 * length cells <= length (cells_bytes size cells stored))%nat.
+Proof.
+  induction cells as [|c t IH]; intros stored i Hok; [cbn [length]; lia|].
+  destruct stored as [|s ts]; [contradiction|]. destruct Hok as (_ & Ht).
+  unfold cells_bytes. cbn [combine map concat fst snd]. fold (cells_bytes size t ts).
+  rewrite app_length. specialize (IH _ _ Ht).
+  unfold enc_cell. cbn [length]. lia.
+Qed.
+
+Lemma enc_cell_bytes n i size c stored :
+  cell_ok n i size c stored -> Forall is_byte (enc_cell size c stored).
+Proof.
+  intros (Hbits & Hnr & _ & Hmask & _ & _ & Hsb).
+  unfold enc_cell. cbv zeta.
+  destruct (d1_facts (N.of_nat (length (n_refs c))) (n_special c)
+                     (Nat.eqb (length stored) 0) (n_mask c) ltac:(lia) Hmask)
+    as (_ & _ & _ & _ & B1).
+  destruct (d2_facts (length (n_bits c)) Hbits) as (_ & _ & B2).
+  constructor; [exact B1|]. constructor; [exact B2|].
+  apply Forall_app. split; [exact Hsb|].
+  apply Forall_app. split; [apply bytes_of_bits_bytes|apply be_list_bytes].
+Qed.
+
+Lemma cells_bytes_bytes n size : forall cells stored i,
+  cells_ok n i size cells stored -> Forall is_byte (cells_bytes size cells stored).
+Proof.
+  induction cells as [|c t IH]; intros stored i Hok; [constructor|].
+  destruct stored as [|s ts]; [contradiction|]. destruct Hok as (Hc & Ht).
+  unfold cells_bytes. cbn [combine map concat fst snd]. fold (cells_bytes size t ts).
+  apply Forall_app. split; [eapply enc_cell_bytes; exact Hc|eapply IH; exact Ht].
+Qed.
+
+Lemma check_refs_enc n size : forall cells stored i,
+  cells_ok n i size cells stored ->
+  check_refs (N.of_nat n) (N.of_nat i) (map rnode_of cells) = true.
+Proof.
+  induction cells as [|c t IH]; intros stored i Hok; [reflexivity|].
+  destruct stored as [|s ts]; [contradiction|]. destruct Hok as (Hc & Ht).
+  cbn [map check_refs]. apply andb_true_iff. split.
+  - destruct Hc as (_ & Hnr & Hrefs & _).
+    unfold refs_ok, rnode_of. cbn [rn_refs]. rewrite map_length.
+    apply andb_true_iff. split; [apply Nat.leb_le; exact Hnr|].
+    apply forallb_forall. intros r Hin. apply in_map_iff in Hin.
+    destruct Hin as (x & <- & Hx). rewrite Forall_forall in Hrefs.
+    specialize (Hrefs _ Hx). apply andb_true_iff. split; apply N.ltb_lt; lia.
+  - rewrite <- Nat2N.inj_succ. eapply IH. exact Ht.
+Qed.
+
+Lemma map_node_of_rnode_of cells : map node_of (map rnode_of cells) = cells.
+Proof.
+  induction cells as [|c t IH]; [reflexivity|].
+  cbn [map]. rewrite node_of_rnode_of, IH. reflexivity.
+Qed.
+(** *** the header *)
+Definition cfg_of (prefix : bytes) (fb : N) : option (bool * bool * bool * nat) :=
+  if bytes_eqb prefix magic_reach then
+    Some (N.testbit fb 7, N.testbit fb 6, N.testbit fb 5, N.to_nat (fb mod 8))
+  else if bytes_eqb prefix magic_lean then Some (true, false, false, N.to_nat fb)
+  else if bytes_eqb prefix magic_lean_crc then Some (true, true, false, N.to_nat fb)
+  else None.
+
+(* everything after the offset-size byte *)
+Definition hrest (size off n : nat) (rootl : list nat) (absent : N) (idx data tail : bytes) : bytes :=
+  be size (N.of_nat n) ++ be size (N.of_nat (length rootl)) ++ be size absent
+  ++ be off (N.of_nat (length data)) ++ be_list size rootl ++ idx ++ data ++ tail.
+
+Lemma hrest_tail size off n rootl absent idx data tail :
+  hrest size off n rootl absent idx data tail
+  = hrest size off n rootl absent idx data [] ++ tail.
+Proof. unfold hrest. rewrite <- !app_assoc. rewrite app_nil_l. reflexivity. Qed.
+
+Lemma parse_header_layout a b c d fb hasIdx hasCrc hasCache size off n rootl absent idx data tail :
+  cfg_of [a; b; c; d] fb = Some (hasIdx, hasCrc, hasCache, size) ->
+  (1 <= size)%nat -> (off <= 8)%nat ->
+  (N.of_nat n < 256 ^ N.of_nat size)%N -> (N.of_nat n < two64)%N ->
+  (N.of_nat (length rootl) < 256 ^ N.of_nat size)%N -> (N.of_nat (length rootl) < two64)%N ->
+  (N.of_nat (length data) < 256 ^ N.of_nat off)%N ->
+  Forall (fits size) rootl ->
+  (n <= length data)%nat ->
+  length idx = (if hasIdx then off * n else 0)%nat ->
+  let body := a :: b :: c :: d :: fb :: N.of_nat off
+              :: hrest size off n rootl absent idx data [] in
+  tail = (if hasCrc then rev (be 4 (crc32c body)) else []) ->
+  (crc32c body < 2 ^ 32)%N ->
+  exists ab ix,
+    parse_header (a :: b :: c :: d :: fb :: N.of_nat off
+                  :: hrest size off n rootl absent idx data tail)
+    = Ok (mkheader hasIdx hasCrc hasCache size (N.of_nat n) (N.of_nat (length rootl)) ab
+                   (N.of_nat (length data)) (map N.of_nat rootl) ix data
+                   (8 * N.of_nat (length rootl) + 8 * N.of_nat n)%N).
+Proof.
+  intros Hcfg Hsz Hoff Hn1 Hn2 Hr1 Hr2 Hd1 Hfits Hnd Hidx body Htail Hcrc.
+  assert (Hd2 : (N.of_nat (length data) < two64)%N).
+  { eapply N.lt_le_trans; [exact Hd1|]. unfold two64. change 18446744073709551616%N with (256 ^ 8)%N.
+    apply N.pow_le_mono_r; lia. }
+  assert (Hboc : a :: b :: c :: d :: fb :: N.of_nat off
+                 :: hrest size off n rootl absent idx data tail = body ++ tail).
+  { unfold body. rewrite hrest_tail. reflexivity. }
+  set (boc := a :: b :: c :: d :: fb :: N.of_nat off
+              :: hrest size off n rootl absent idx data tail) in *.
+  unfold parse_header.
+  assert (E5 : short 5 boc = false) by reflexivity. rewrite E5.
+  assert (E4 : take_drop 4 boc
+               = Ok ([a; b; c; d], fb :: N.of_nat off :: hrest size off n rootl absent idx data tail))
+    by reflexivity.
+  rewrite E4. cbn [bind].
+  fold (cfg_of [a; b; c; d] fb). rewrite Hcfg.
+  rewrite !Nat2N.id.
+  assert (Es : short (1 + 3 * size)
+                 (N.of_nat off :: hrest size off n rootl absent idx data tail) = false).
+  { apply short_false_iff. cbn [length]. unfold hrest. rewrite !app_length, !be_length. lia. }
+  rewrite Es. unfold hrest.
+  rewrite (read_be_drop_be _ _ _ Hn1 Hn2). cbn [bind].
+  rewrite (read_be_drop_be _ _ _ Hr1 Hr2). cbn [bind].
+  rewrite read_be_drop_be_gen. cbn [bind].
+  set (ab := ((absent mod 256 ^ N.of_nat size) mod two64)%N). exists ab.
+  assert (Eo : forall X, short off (be off (N.of_nat (length data)) ++ X) = false).
+  { intros X. apply short_false_iff. rewrite app_length, be_length. lia. }
+  rewrite Eo.
+  rewrite (read_be_drop_be _ _ _ Hd1 Hd2). cbn [bind].
+  set (k := length rootl) in *.
+  assert (Lb6 : length (be_list size rootl ++ idx ++ data ++ tail)
+                = (size * k + (length idx + (length data + length tail)))%nat).
+  { rewrite !app_length, be_list_length. reflexivity. }
+  rewrite Lb6.
+  assert (Er : ((N.of_nat (size * k + (length idx + (length data + length tail))) <? N.of_nat k)%N
+               || (N.of_nat (size * k + (length idx + (length data + length tail)))
+                   <? N.of_nat k * N.of_nat size)%N) = false).
+  { apply orb_false_iff. split; apply N.ltb_ge; nia. }
+  rewrite Er.
+  assert (Ec : (N.of_nat (size * k + (length idx + (length data + length tail))) <? N.of_nat n)%N = false).
+  { apply N.ltb_ge. lia. }
+  rewrite Ec.
+  unfold k. rewrite !Nat2N.id. rewrite (read_list_be _ _ _ _ Hfits). cbn [bind rev app].
+  match goal with |- exists ix, bind ?A _ = _ =>
+    assert (Eix : exists ix, A = Ok (ix, data ++ tail)) end.
+  { destruct hasIdx.
+    - assert (Ei : (N.of_nat (length (idx ++ data ++ tail)) <? N.of_nat off * N.of_nat n)%N = false).
+      { apply N.ltb_ge. rewrite app_length, Hidx. nia. }
+      rewrite Ei.
+      destruct (read_list_ok n off hasCache (idx ++ data ++ tail) []) as (vs & E & _).
+      { rewrite app_length. lia. }
+      exists vs. rewrite E. replace (n * off)%nat with (length idx) by lia.
+      rewrite skipn_app_exact. reflexivity.
+    - destruct idx; [|discriminate]. exists []. reflexivity. }
+  destruct Eix as (ix & Eix). exists ix. rewrite Eix. cbn [bind].
+  assert (Et : (N.of_nat (length (data ++ tail)) <? N.of_nat (length data))%N = false).
+  { apply N.ltb_ge. rewrite app_length. lia. }
+  rewrite Et.
+  rewrite take_drop_ok by (rewrite app_length; lia).
+  rewrite firstn_app_exact, skipn_app_exact. cbn [bind].
+  match goal with |- context [firstn (length boc - 4) ?L] => change L with boc end.
+  destruct hasCrc.
+  - assert (Htl : length tail = 4%nat) by (rewrite Htail, rev_length, be_length; reflexivity).
+    assert (Hfirst : firstn (length boc - 4) boc = body).
+    { rewrite Hboc, app_length, Htl.
+      replace (length body + 4 - 4)%nat with (length body) by lia.
+      apply firstn_app_exact. }
+    rewrite Hfirst.
+    assert (E4' : short 4 tail = false) by (apply short_false_iff; lia).
+    rewrite E4'.
+    assert (Ele : le32 tail = crc32c body) by (rewrite Htail; apply le32_be4; exact Hcrc).
+    rewrite Ele, N.eqb_refl. cbn [negb bind].
+    rewrite skipn_all2 by lia. reflexivity.
+  - rewrite Htail. reflexivity.
+Qed.
+
+(** *** the layout has the shape the header walk expects *)
+Lemma cfg_reach fb :
+  cfg_of magic_reach fb
+  = Some (N.testbit fb 7, N.testbit fb 6, N.testbit fb 5, N.to_nat (fb mod 8)).
+Proof. reflexivity. Qed.
+Lemma cfg_lean fb : cfg_of magic_lean fb = Some (true, false, false, N.to_nat fb).
+Proof. reflexivity. Qed.
+Lemma cfg_lean_crc fb : cfg_of magic_lean_crc fb = Some (true, true, false, N.to_nat fb).
+Proof. reflexivity. Qed.
+
+Lemma fb_facts (vi vc vh : bool) (size : nat) :
+  (size <= 7)%nat ->
+  let fb := ((if vi then 128 else 0) + (if vc then 64 else 0)
+             + (if vh then 32 else 0) + N.of_nat size)%N in
+  N.testbit fb 7 = vi /\ N.testbit fb 6 = vc /\ N.testbit fb 5 = vh /\
+  N.to_nat (fb mod 8) = size /\ (fb < 256)%N.
+Proof.
+  intros Hs.
+  assert (Hs' : (size = 0 \/ size = 1 \/ size = 2 \/ size = 3 \/ size = 4 \/ size = 5
+                 \/ size = 6 \/ size = 7)%nat) by lia.
+  clear Hs.
+  destruct Hs' as [->|[->|[->|[->|[->|[->|[->| ->]]]]]]];
+    destruct vi, vc, vh; vm_compute; repeat split.
+Qed.
+
+Definition full (a b c d fb : N) (v : variant) (cells : list node) (roots : list nat)
+  (t : bytes) : bytes :=
+  a :: b :: c :: d :: fb :: N.of_nat (v_off v)
+  :: hrest (v_size v) (v_off v) (length cells) roots (v_absent v)
+       (if has_idx v then v_index v else []) (cells_bytes (v_size v) cells (v_stored v)) t.
+
+Lemma layout_shape v cells roots :
+  (v_magic v <= 2)%nat ->
+  (if Nat.eqb (v_magic v) 0 then v_size v <= 7 else v_size v <= 255)%nat ->
+  exists a b c d fb hasCache,
+    cfg_of [a; b; c; d] fb = Some (has_idx v, has_crc v, hasCache, v_size v) /\
+    Forall is_byte [a; b; c; d; fb] /\
+    layout v cells roots
+    = full a b c d fb v cells roots
+        (if has_crc v then rev (be 4 (crc32c (full a b c d fb v cells roots []))) else []).
+Proof.
+  intros Hm Hs.
+  destruct v as [mg vi vc vh size off ab index stored].
+  cbn [v_magic v_size] in Hm, Hs.
+  destruct mg as [|[|[|mg]]]; [| | |lia]; cbn [Nat.eqb] in Hs.
+  - destruct (fb_facts vi vc vh size Hs) as (F7 & F6 & F5 & F8 & Fb).
+    exists 0xb5%N, 0xee%N, 0x9c%N, 0x72%N,
+      ((if vi then 128 else 0) + (if vc then 64 else 0)
+       + (if vh then 32 else 0) + N.of_nat size)%N, vh.
+    split; [|split].
+    + rewrite (cfg_reach _), F7, F6, F5, F8. reflexivity.
+    + repeat constructor; try exact Fb; unfold is_byte; lia.
+    + unfold full, layout, has_crc, has_idx, cells_data, hrest, magic_reach.
+      cbn [v_magic v_idx v_crc v_cache v_size v_off v_absent v_index v_stored Nat.eqb].
+      destruct vc; cbn [app]; rewrite ?app_nil_r, <- ?app_assoc; cbn [app]; reflexivity.
+  - exists 0x68%N, 0xff%N, 0x65%N, 0xf3%N, (N.of_nat size), false.
+    split; [|split].
+    + rewrite (cfg_lean _), Nat2N.id. reflexivity.
+    + repeat constructor; unfold is_byte; lia.
+    + unfold full, layout, has_crc, has_idx, cells_data, hrest, magic_lean.
+      cbn [v_magic v_idx v_crc v_cache v_size v_off v_absent v_index v_stored Nat.eqb].
+      cbn [app]. rewrite ?app_nil_r, <- ?app_assoc. cbn [app]. reflexivity.
+  - exists 0xac%N, 0xc3%N, 0xa7%N, 0x28%N, (N.of_nat size), false.
+    split; [|split].
+    + rewrite (cfg_lean_crc _), Nat2N.id. reflexivity.
+    + repeat constructor; unfold is_byte; lia.
+    + unfold full, layout, has_crc, has_idx, cells_data, hrest, magic_lean_crc.
+      cbn [v_magic v_idx v_crc v_cache v_size v_off v_absent v_index v_stored Nat.eqb].
+      cbn [app]. rewrite ?app_nil_r, <- ?app_assoc. cbn [app]. reflexivity.
+Qed.
+
+Lemma hrest_bytes size off n rootl absent idx data :
+  Forall is_byte idx -> Forall is_byte data ->
+  Forall is_byte (hrest size off n rootl absent idx data []).
+Proof.
+  intros Hi Hd. unfold hrest.
+  repeat (apply Forall_app; split); try apply be_bytes; try apply be_list_bytes;
+    try assumption. constructor.
+Qed.
+
+(** *** the parser inverts the layout *)
+Theorem parse_layout (v : variant) (cells : list node) (roots : list nat) :
+  layout_ok v cells roots ->
+  (N.of_nat (length roots) < 2 ^ 64)%N ->
+  exists p, parse_boc (layout v cells roots) = Ok p /\ p_cells p = cells /\ p_roots p = roots.
+Proof.
+  intros (Hmag & Hsz1 & Hsz2 & Hoff & Hn & Hnr & Hab & Hdl & Hroots & Hcells & Hidx & Hidxb) Hr64.
+  cbv zeta in *.
+  change (2 ^ 64)%N with two64 in Hr64.
+  change (cells_data v cells) with (cells_bytes (v_size v) cells (v_stored v)) in Hdl.
+  set (size := v_size v) in *. set (off := v_off v) in *. set (n := length cells) in *.
+  set (data := cells_bytes size cells (v_stored v)) in *.
+  pose proof (cells_bytes_length _ _ _ _ _ Hcells) as Hlen. fold data in Hlen. fold n in Hlen.
+  assert (Hd2 : (N.of_nat (length data) < two64)%N).
+  { eapply N.lt_le_trans; [exact Hdl|]. unfold two64.
+    change 18446744073709551616%N with (256 ^ 8)%N. apply N.pow_le_mono_r; lia. }
+  assert (Hn2 : (N.of_nat n < two64)%N) by lia.
+  destruct (layout_shape v cells roots Hmag Hsz2) as (a & b & c & d & fb & hasCache & Hcfg & Hpb & Hlay).
+  unfold full in Hlay. fold size off n data in Hlay.
+  set (idx := if has_idx v then v_index v else []) in *.
+  assert (Hib : Forall is_byte idx) by (unfold idx; destruct (has_idx v); [exact Hidxb|constructor]).
+  assert (Hdb : Forall is_byte data) by (eapply cells_bytes_bytes; exact Hcells).
+  destruct (parse_header_layout a b c d fb (has_idx v) (has_crc v) hasCache size off n roots
+              (v_absent v) idx data
+              (if has_crc v
+               then rev (be 4 (crc32c (a :: b :: c :: d :: fb :: N.of_nat off
+                                        :: hrest size off n roots (v_absent v) idx data [])))
+               else []))
+    as (ab & ix & Eh); try assumption; try reflexivity; try lia.
+  - apply Forall_forall. intros r Hr. rewrite Forall_forall in Hroots. specialize (Hroots r Hr).
+    cbv beta in Hroots. fold n in Hroots. unfold fits.
+    split; [apply N.lt_trans with (N.of_nat n); [lia|exact Hn]
+           |apply N.lt_trans with (N.of_nat n); [lia|exact Hn2]].
+  - unfold idx. destruct (has_idx v); [apply Hidx; reflexivity|reflexivity].
+  - apply crc32c_bound.
+    rewrite !Forall_cons_iff in Hpb. destruct Hpb as (Ha & Hb & Hc & Hd & Hf & _).
+    repeat (constructor; [assumption|]).
+    constructor; [unfold is_byte; lia|].
+    apply hrest_bytes; assumption.
+  - assert (Eh' : parse_header (layout v cells roots) = Ok
+      (mkheader (has_idx v) (has_crc v) hasCache size (N.of_nat n) (N.of_nat (length roots)) ab
+         (N.of_nat (length data)) (map N.of_nat roots) ix data
+         (8 * N.of_nat (length roots) + 8 * N.of_nat n)%N)) by (rewrite Hlay; exact Eh).
+    unfold parse_boc. rewrite Eh'.
+    cbn [bind h_cells h_size h_data h_rootlist h_alloc].
+    rewrite Nat2N.id. unfold n, data.
+    rewrite (parse_cells_enc (length cells) size cells (v_stored v) 0 [] Hcells);
+      [|apply N.lt_le_incl; exact Hn|apply N.lt_le_incl; exact Hn2].
+    cbn [bind rev app]. rewrite map_length.
+    pose proof (check_refs_enc _ _ _ _ _ Hcells) as Hchk. change (N.of_nat 0) with 0%N in Hchk. unfold n in Hchk.
+    rewrite Hchk. cbn [negb].
+    assert (Hrt : forallb (fun r => (r <? N.of_nat (length cells))%N) (map N.of_nat roots) = true).
+    { apply forallb_forall. intros x Hx. apply in_map_iff in Hx. destruct Hx as (r & <- & Hr).
+      rewrite Forall_forall in Hroots. specialize (Hroots r Hr). cbv beta in Hroots.
+      apply N.ltb_lt. fold n. lia. }
+    rewrite Hrt. cbn [negb].
+    eexists. split; [reflexivity|]. cbn [p_cells p_roots].
+    split; [apply map_node_of_rnode_of|apply map_to_of_nat].
+Qed.
+
+(** Why the bound on the number of roots: for the lean magics the reference
+    size may exceed 8 bytes, and the parser's counter reader works in uint64,
+    so a 9-byte root count >= 2^64 is read back as a different number. *)
+Example read_be_wraps : read_be 9 (be 9 (2 ^ 64)) = Ok 0%N.
+Proof. vm_compute. reflexivity. Qed.
+
+(** With at most 8 bytes per cell index (always the case for the generic
+    magic, whose size field has 3 bits) the bound follows from [layout_ok]. *)
+Corollary parse_layout_size8 (v : variant) (cells : list node) (roots : list nat) :
+  layout_ok v cells roots -> (v_size v <= 8)%nat ->
+  exists p, parse_boc (layout v cells roots) = Ok p /\ p_cells p = cells /\ p_roots p = roots.
+Proof.
+  intros Hok H8. apply parse_layout; [exact Hok|].
+  destruct Hok as (_ & _ & _ & _ & _ & Hnr & _). cbv zeta in Hnr.
+  eapply N.lt_le_trans; [exact Hnr|].
+  change (2 ^ 64)%N with (256 ^ 8)%N. apply N.pow_le_mono_r; lia.
+Qed.
+
+Corollary parse_layout_generic (v : variant) (cells : list node) (roots : list nat) :
+  layout_ok v cells roots -> v_magic v = 0%nat ->
+  exists p, parse_boc (layout v cells roots) = Ok p /\ p_cells p = cells /\ p_roots p = roots.
+Proof.
+  intros Hok Hm. apply parse_layout_size8; [exact Hok|].
+  destruct Hok as (_ & _ & Hs & _). cbv zeta in Hs. rewrite Hm in Hs. cbn [Nat.eqb] in Hs. lia.
+Qed.
+
+(** The cells and roots a reader obtains do not depend on the header variant,
+    the stored hashes, the index bytes or the absent counter. *)
+Corollary parse_layout_hashes_irrelevant (v v' : variant) (cells : list node) (roots : list nat) :
+  layout_ok v cells roots -> layout_ok v' cells roots ->
+  (N.of_nat (length roots) < 2 ^ 64)%N ->
+  exists p p', parse_boc (layout v cells roots) = Ok p /\
+               parse_boc (layout v' cells roots) = Ok p' /\
+               p_cells p = p_cells p' /\ p_roots p = p_roots p'.
+Proof.
+  intros H1 H2 Hr.
+  destruct (parse_layout v cells roots H1 Hr) as (p & E & Hc & Hrt).
+  destruct (parse_layout v' cells roots H2 Hr) as (p' & E' & Hc' & Hrt').
+  exists p, p'. rewrite Hc, Hc', Hrt, Hrt'. auto.
+Qed.
